@@ -1,5 +1,14 @@
 package rules
 
-import "strconv"
+import (
+	"strconv"
+	"strings"
+
+	"defracheck/internal/eng"
+)
 
 func unq(s string) (string, error) { return strconv.Unquote(s) }
+
+func isTestFile(p *eng.Program, fi *eng.FuncInfo) bool {
+	return strings.HasSuffix(p.Fset.Position(fi.Decl.Pos()).Filename, "_test.go")
+}
